@@ -116,7 +116,7 @@ def replay(reqs, fib, ref):
 class Prop:
     pid = 'C20'
     props_file = 'Props/C20.v'
-    required_theorems = ['fib_replay_eq_ecmp_of_best', 'vrf_fib_replay_eq_ecmp_of_best', 'nht_refcount_eq_paths', 'kernel_watched_count_is_replay', 'fib_replay_eq_ecmp_of_best_legacy_refuted', 'vrf_fib_replay_eq_ecmp_of_best_legacy_refuted',
+    required_theorems = ['fib_replay_eq_ecmp_of_best', 'vrf_fib_replay_eq_ecmp_of_best_outside_known', 'vrf_fib_replay_eq_ecmp_of_best_refuted', 'nht_refcount_eq_paths', 'kernel_watched_count_is_replay', 'fib_replay_eq_ecmp_of_best_legacy_refuted', 'vrf_fib_replay_eq_ecmp_of_best_legacy_refuted',
                          'unreachable_nexthop_excluded']
     correspondence_name = ('Model/Fib.v svc_run vs kernel/src/lib.rs run_service_loop (harness/hx-kernel, real rtnetlink socket); Model/Fib.v step vs daemon/src/table_manager.rs TableManager (insert_route, remove_route, drop_families, '
                            'unregister_peer, drop_stale_families, mark_llgr_stale, drop_llgr_stale_families, update_nexthop_validity, '
